@@ -43,7 +43,7 @@
   updateOne/Many (+ upsert), findOneAndReplace/Update, bulkWrite, expire — with the exact missing
   lemma for each.
 -/
-import Lungo.Proofs.SeqUpdate
+import Lungo.Proofs.SeqReplace
 import Lungo.Props.C15
 import Lungo.Props.C07
 namespace Lungo.C01
@@ -182,6 +182,23 @@ theorem refines_findOneAndUpdate (s : Sys) (h : Handle) (q u : Doc) (sort proj :
     Refines sch s (.findOneAndUpdate h q u sort proj upsert after fs) oids :=
   SeqRef.refines_findOneAndUpdate s h q u sort proj upsert after fs oids ⟨hi, fun _ => hu⟩ ok hw
 
+/-- replaceOne: the first match replaced in its slot by the replacement carrying the stored `_id`
+    (another `_id` is an error); upsert inserts the replacement with the `_id` of the filter's seed.
+    `ReplaceOk`: the filter evaluates on every stored document; the replacement, the upserted
+    document and the generated ids are Go values. -/
+theorem refines_replaceOne (s : Sys) (h : Handle) (q repl : Doc) (upsert : Bool) (oids : List V)
+    (hi : SysInv sch s) (hu : UniqueOkCat sch s.catalog) (ok : OkDB (abs s.catalog))
+    (hw : ReplaceOk (acOf sch) (abs s.catalog) h q repl upsert oids) :
+    Refines sch s (.replaceOne h q repl upsert) oids :=
+  SeqRef.refines_replaceOne s h q repl upsert oids ⟨hi, fun _ => hu⟩ ok hw
+
+theorem refines_findOneAndReplace (s : Sys) (h : Handle) (q repl : Doc) (sort proj : Option Doc)
+    (upsert after : Bool) (oids : List V)
+    (hi : SysInv sch s) (hu : UniqueOkCat sch s.catalog) (ok : OkDB (abs s.catalog))
+    (hw : ReplaceOk (acOf sch) (abs s.catalog) h q repl upsert oids) :
+    Refines sch s (.findOneAndReplace h q repl sort proj upsert after) oids :=
+  SeqRef.refines_findOneAndReplace s h q repl sort proj upsert after oids ⟨hi, fun _ => hu⟩ ok hw
+
 theorem refines_createCollection (s : Sys) (h : Handle) (oids : List V) :
     Refines sch s (.createCollection h) oids := SeqRef.refines_createCollection s h oids
 
@@ -211,7 +228,7 @@ theorem refines_dropIndexByKey (s : Sys) (h : Handle) (key : Doc) (oids : List V
 /-- the calls whose refinement is proved -/
 def covered : Call → Bool
   | .insertOne .. | .insertMany .. | .find .. | .findOne .. | .count .. | .estCount _ | .distinct ..
-  | .updateOne .. | .updateMany .. | .findOneAndUpdate ..
+  | .updateOne .. | .updateMany .. | .findOneAndUpdate .. | .replaceOne .. | .findOneAndReplace ..
   | .deleteOne .. | .deleteMany .. | .findOneAndDelete .. | .createIndex .. | .dropIndex .. | .dropAllIndexes _
   | .dropIndexByKey .. | .listIndexes _ | .createCollection _ | .dropCollection _ | .dropDatabase _
   | .listCollections .. | .listDatabases _ => true
@@ -233,6 +250,8 @@ def WF (sch : SchemaEval) (db : SeqDB) (oids : List V) : Call → Prop
   | .updateOne h q u upsert fs => UpdateOk (acOf sch) db h q u upsert fs oids
   | .updateMany h q u upsert fs => UpdateOk (acOf sch) db h q u upsert fs oids
   | .findOneAndUpdate h q u _ _ upsert _ fs => UpdateOk (acOf sch) db h q u upsert fs oids
+  | .replaceOne h q repl upsert => ReplaceOk (acOf sch) db h q repl upsert oids
+  | .findOneAndReplace h q repl _ _ upsert _ => ReplaceOk (acOf sch) db h q repl upsert oids
   | _ => True
 
 /-- **api_refines** (the proved subset): in a state satisfying the C15 invariant and C07, whose
@@ -265,8 +284,9 @@ theorem api_refines_partial {s : Sys} {c : Call} {oids : List V} (hi : SysInv sc
   | listDatabases q => exact refines_listDatabases s q oids
   | updateOne h q u upsert fs => exact refines_updateOne s h q u upsert fs oids hi hu ok hw
   | updateMany h q u upsert fs => exact refines_updateMany s h q u upsert fs oids hi hu ok hw
-  | replaceOne _ _ _ _ => cases hc
-  | findOneAndReplace _ _ _ _ _ _ _ => cases hc
+  | replaceOne h q repl upsert => exact refines_replaceOne s h q repl upsert oids hi hu ok hw
+  | findOneAndReplace h q repl sort proj upsert after =>
+    exact refines_findOneAndReplace s h q repl sort proj upsert after oids hi hu ok hw
   | findOneAndUpdate h q u sort proj upsert after fs =>
     exact refines_findOneAndUpdate s h q u sort proj upsert after fs oids hi hu ok hw
   | bulkWrite _ _ _ => cases hc
